@@ -6,7 +6,7 @@
 (* State                                                                   *)
 (*   ord  sequence of distinct keys = the iteration order (first .. last)  *)
 (*   val  function  key -> value, DOMAIN val = the keys of ord             *)
-(*   max  the bound set with SetMax (0 = unbounded)                        *)
+(*   max  the bound set with SetMax (<= 0 = unbounded)                     *)
 (*   cfg  the conventions of the concrete type (fixed during a history):   *)
 (*          set   the type is a set: the value stored under k is k itself  *)
 (*          none  what the type answers for "no such entry", as a tuple:   *)
@@ -118,17 +118,41 @@ Dirs == {"asc", "desc", "par"}
 Less(dir, a, b) == CASE dir = "asc"  -> a < b
                      [] dir = "desc" -> a > b
                      [] dir = "par"  -> IF a % 2 # b % 2 THEN a % 2 > b % 2 ELSE a < b
+\* Sorting is re-insertion (property record, mechanism "sort = collect entries,
+\* sort by key comparator, clear, re-insert"): the entries are put back one by
+\* one at the end, in sorted order.  Within the bound that is a permutation.
+\* With an excess (LazyBound, below) each re-insertion is the insertion of a new
+\* key and evicts from the front, so only the last max entries of the sorted
+\* order survive: SortReinserts, second clause of the named deviation.
+SortReinserts == TRUE     \* FALSE: sort only permutes, whatever the excess
+Sorted(dir)   == SortSeq(ord, LAMBDA a, b : Less(dir, a, b))
+SortKeeps(s)  == IF SortReinserts /\ max > 0 /\ Len(s) > max
+                 THEN SubSeq(s, Len(s) - max + 1, Len(s)) ELSE s
 Sort(dir) == /\ dir \in Dirs
-             /\ ord' = SortSeq(ord, LAMBDA a, b : Less(dir, a, b))
-             /\ UNCHANGED <<val, max, cfg>>
+             /\ LET o2 == SortKeeps(Sorted(dir)) IN
+                  /\ ord' = o2
+                  /\ val' = [x \in Range(o2) |-> val[x]]
+             /\ UNCHANGED <<max, cfg>>
 
 \* ---- the bound ------------------------------------------------------------
-\* The bound is only ever set to "none" or to at least the current size: the
-\* code applies a smaller bound lazily at the next insertion, which the stated
-\* invariant does not describe (DESIGN 3/C09); such calls are outside the model.
-SetMax(n) == /\ n >= 0
-             /\ (n = 0 \/ n >= Len(ord))
-             /\ max' = n
+\* DEVIATION LazyBound (named; what all thirteen types do, DESIGN 3/C09).
+\* The statement says "the structure never holds more than max entries".  The
+\* code enforces the bound where entries come in, not where the bound is set:
+\*   * SetMax only records the bound -- any integer, at any time.  It never
+\*     evicts, so a bound set BELOW the current size leaves an excess behind.
+\*     A bound <= 0 means "no bound" (every use is guarded by max > 0).
+\*   * the next insertion of a NEW key removes the whole excess: it evicts
+\*     from the end opposite to the insertion end UNTIL fewer than max entries
+\*     remain (Trim: as many evictions as needed, not one), then inserts.
+\*   * updates of existing keys, lookups, moves and removals never evict,
+\*     whatever the excess; add-no-over drops a new key while size >= max and
+\*     evicts nothing.
+\*   * a sort re-inserts every entry (SortReinserts, above), so it is the one
+\*     other call that removes an excess.
+\* What remains of the stated invariant is NewKeyBounded (a step that brings in
+\* a new key ends within the bound) and ExcessNeverGrows (an excess only stems
+\* from lowering the bound; no step adds to it).
+SetMax(n) == /\ max' = n
              /\ UNCHANGED <<ord, val, cfg>>
 
 \* ---- the "no such entry" answer (SetNullValue) ------------------------------
@@ -142,12 +166,22 @@ EntriesSeq == [i \in 1..Len(ord) |-> <<ord[i], val[ord[i]]>>]
 IsFull     == max > 0 /\ max <= Len(ord)
 
 \* ---- the property as invariants ------------------------------------------
+\* Bounded is a state invariant only where the bound is never lowered below the
+\* current size (Linearize / C10: the bound is fixed before the first insertion).
+\* With SetMax at any time (LazyBound) it is replaced by the two step formulas.
 Bounded  == max > 0 => Len(ord) <= max
 NoDup    == Cardinality(Range(ord)) = Len(ord)
 DomOK    == DOMAIN val = Range(ord)
 SetOK    == cfg.set => \A k \in DOMAIN val : val[k] = k
 RefuseOK == cfg.rej => cfg.ek \notin DOMAIN val
-InvAll   == Bounded /\ NoDup /\ DomOK /\ SetOK /\ RefuseOK
+InvCore  == NoDup /\ DomOK /\ SetOK /\ RefuseOK
+InvAll   == Bounded /\ InvCore
+\* a step that brings in a key that was not there ends within the bound in force
+NewKeyBounded    == (Range(ord') \ Range(ord) # {}) => (max' > 0 => Len(ord') <= max')
+\* more than max entries after a step: the step added none (it lowered the bound,
+\* or left / reduced an excess that was already there)
+ExcessNeverGrows == (max' > 0 /\ Len(ord') > max') => Len(ord') <= Len(ord)
+LazyBound        == NewKeyBounded /\ ExcessNeverGrows
 
 InitWith(c) == ord = <<>> /\ val = EmptyFn /\ max = 0 /\ cfg = c
 =============================================================================
